@@ -179,6 +179,12 @@ async fn read_tcp_framed_packet(stream: &mut TcpStream) -> Result<Vec<u8>> {
     Ok(buf)
 }
 
+/// Verification hook (C07): the first-frame reader of an accepted connection on a stream the harness controls.
+#[cfg(rustrtc_verif)]
+pub(crate) async fn verif_read_tcp_framed_packet(stream: &mut TcpStream) -> Result<Vec<u8>> {
+    read_tcp_framed_packet(stream).await
+}
+
 /// USERNAME on an inbound Binding request is `peer-ufrag:own-ufrag` from the sender.
 /// For a browser connecting to our passive listener, peer-ufrag is our local ufrag.
 pub(crate) fn peer_ufrag_from_binding_request(data: &[u8]) -> Option<String> {
